@@ -1271,8 +1271,8 @@ def build_cases(ck, impl, rng, tier):
         cases += exhaustive_single(small_full_doc(), "exh-full")
         for name, d in samples:
             if sum(1 for _ in nodes_of(d)) <= 60:
-                cases += exhaustive_single(d, "exh-sample", rng, 5)
-    n_mut = 350 if quick else 6000
+                cases += exhaustive_single(d, "exh-sample", rng, 8)
+    n_mut = 350 if quick else 9000
     bases = [d for _, d in samples] + valids
     for i in range(n_mut):
         b = rng.choice(bases) if rng.random() < 0.8 else small_full_doc()
@@ -1465,7 +1465,7 @@ def run(ck):
             ck.mismatch("unreadable corpus file %s" % t, j)
     ck.cov["rule"] = ("documents = corpus + repo samples + generated valid specifications (full range of "
                       "schema-admitted values per key) + every single-point mutation of a small document "
-                      "(thorough: of a full-featured one in full, and of every small repo sample with 5 seeded pool values per node for the retype edit) + seeded structural and "
+                      "(thorough: of a full-featured one in full, and of every small repo sample with 8 seeded pool values per node for the retype edit) + seeded structural and "
                       "semantic mutations + exotic shapes; a case is distinct by its YAML text; all cases are "
                       "non-trivial (each runs the real front end and the model); interp = random values against "
                       "every sub-schema (Gallina interpreter vs jsonschema)")
